@@ -343,6 +343,36 @@ fn tournament_config(n: usize, k: usize, pname: &str, vals: &[i64], draws: u64, 
     rep.table_push("frequency_tables", json!({"config": cfg, "draws": draws, "value_classes": rows, "subset_monitor": subset_note}));
 }
 
+/// Large populations with tournaments that take most of them (k = n-1, 0.9 n, n/2 + 1) as well as
+/// a few (1, 2, 7) or all: the winner beats at least k-1 others - with k = n-1 it is the best or
+/// the second best - and the selection answers in time that does not grow with the square of n.
+fn large_populations(seed: u64, rep: &mut Report) {
+    for n in [5_000usize, 100_000] {
+        let mut g = Xo::derive(seed, "C07-large", n as u64);
+        // distinct values in a scrambled order
+        let mut vals: Vec<u64> = (0..n as u64).collect();
+        for i in (1..n).rev() {
+            vals.swap(i, g.usize_below(i + 1));
+        }
+        for k in [1usize, 2, 7, n / 2 + 1, n - n / 10, n - 1, n] {
+            vh_core::shard::set_context(format!("C07 tournament of size {k} on a population of {n} distinct values"));
+            let t = Tournament::new(NonZeroUsize::new(k).unwrap());
+            let mut rng = TraceRng::new(mix(seed, (n * 31 + k) as u64));
+            for _ in 0..2 {
+                let r = catch(|| t.select(&vals, &mut rng).map(|w| *w).map_err(|e| format!("{e:?}")));
+                rep.eval();
+                rep.count("large-population-tournaments");
+                // distinct values 0..n: the value is the number of members it beats
+                match r {
+                    Ok(Ok(w)) if w as usize + 1 >= k => {}
+                    other => rep.violation("C07/Tournament/winner-among-the-k-1-worst", || json!({"population": format!("{n} distinct values"), "tournament_size": k, "observed": format!("{other:?}"), "meaning": "the winner of a tournament of k distinct members beats at least k-1 members of the population"})),
+                }
+            }
+            rep.distinct(fnv_str(&format!("large{n}-{k}")));
+        }
+    }
+}
+
 pub fn run(args: &Args) -> i32 {
     let draws = args.tier.pick(1_000_000u64, 20_000_000u64);
     let mut configs = Vec::new();
@@ -381,6 +411,7 @@ pub fn run(args: &Args) -> i32 {
         rep
     });
     rep.merge(bw);
+    large_populations(args.seed, &mut rep);
     rep.table("statistical_monitor", json!({
         "draws_per_configuration": draws,
         "per_category_false_alarm_bound": vh_core::stats::DELTA,
